@@ -82,6 +82,44 @@ def gen_case(rng, big=False, bias=None):
     return lines
 
 
+def gen_mt_case(rng):
+    """multi-thread run: no scripted callbacks (their global numbering would be scheduling dependent)"""
+    nl = rng.range(2, 4)
+    nh = rng.range(2, 8)
+    lo = [rng.below(nl) for _ in range(nh)]
+    lines = ["init %d %s" % (nl, " ".join(map(str, lo)))]
+    sigs = SIGS[:rng.range(1, 3)]
+    st = {i: 0 for i in range(nh)}
+    for _ in range(rng.range(8, 50)):
+        r = rng.below(20); h = rng.below(nh); sig = rng.choice(sigs)
+        if r < 4: lines.append(f"start h{h} {sig}"); st[h] = sig
+        elif r < 8: lines.append(f"oneshot h{h} {sig}"); st[h] = sig
+        elif r < 10: lines.append(f"stop h{h}"); st[h] = 0
+        elif r < 11: lines.append(f"close h{h}"); st[h] = 0
+        else:
+            live = [x for x in st.values() if x]
+            lines.append(f"raise {rng.choice(live) if live else sig}")
+    for h in range(nh): lines.append(f"close h{h}")
+    return lines
+
+
+def run_mt_case(ctx, exe, c, stats):
+    rc, out, err = ctx.run(exe, text="\n".join(c) + "\n", env=ENV, timeout=120)
+    ctx.count()
+    if rc != 0:
+        ctx.violation("crash-mt", f"multi-thread signal harness exited {rc}: {err[-900:]}", {"mt": True, "ops": c})
+        return False
+    ok = True
+    seen = set()
+    for sig, text in monitor(c, out.splitlines(), mt=True):
+        if sig in seen: continue
+        seen.add(sig); stats["mt:" + sig] = stats.get("mt:" + sig, 0) + 1
+        if ctx.violation(sig, f"C13 (loops on separate threads): {text}", {"mt": True, "ops": c}):
+            ok = False
+    stats["_mtcb"] = stats.get("_mtcb", 0) + sum(1 for l in out.splitlines() if l.startswith("cb signal"))
+    return ok
+
+
 def exhaustive_cases():
     """all programs of 5 events over one loop, one handle, one signal drawn from
     {start, oneshot, stop, raise, run} followed by raise/run/run — the scope that contains L10"""
@@ -101,7 +139,7 @@ class Mon:
     def v(self, sig, text):
         self.viol.append((sig, text))
 
-    def run(self, prog, out):
+    def run(self, prog, out, mt=False):
         it = iter(out)
         H = {}
         exp = {}             # loop -> list of groups; group = list of dict(h, sig, inc, done)
@@ -268,9 +306,52 @@ class Mon:
                 self.v("close-before-dispatched", f"close_cb for h{h} while a signal caught for it is still in the pipe")
             x["closed"] = True
 
+        def mt_runall(cmd):
+            """multi-thread harness: all loops are brought to quiescence after every command"""
+            for L in sorted(exp):
+                phase = "dispatch"
+                while True:
+                    o = next(it)
+                    if o == f"ran {L}": break
+                    f = o.split()
+                    if f[:2] == ["cb", "signal"]:
+                        if phase != "dispatch": self.v("protocol", "signal callback after a close callback in one quiescence")
+                        on_signal_cb(L, int(f[2][1:]), int(f[3]))
+                    elif f[:2] == ["cb", "close"]:
+                        if phase == "dispatch": end_of_dispatch(L); phase = "closing"
+                        on_close_cb(L, int(f[2][1:]), None)
+                    elif f[:2] == ["cb", "wrongthread"]:
+                        self.v("wrong-thread", f"signal callback of {f[2]} ran on a thread that does not run its loop")
+                    else:
+                        self.v("protocol", f"unexpected line: {o}")
+                if phase == "dispatch": end_of_dispatch(L)
+                for h, x in H.items():
+                    if x["loop"] == L and x["closing"] and not x["closed"]:
+                        self.v("close-cb-missing", f"h{h} is closing, nothing is pending, but close_cb did not run after `{cmd}`")
+            check_obs(cmd)
+
         for cmd in prog:
             w = cmd.split()
-            if w[0] == "init":
+            if mt and w[0] == "init":
+                nl = int(w[1])
+                H = {i: dict(loop=int(l), sig=0, os=False, inc=0, closing=False, closed=False, caught=0,
+                             pending_at_restart=False, own_cb_restart=False, got_cb=-1) for i, l in enumerate(w[2:])}
+                exp = {L: [] for L in range(nl)}
+                mt_runall(cmd)
+            elif mt and w[0] in ("start", "oneshot", "stop", "close"):
+                r = next(it)
+                e = spec_op([w[0], w[1][1:]] + w[2:])
+                want = "ret skip" if e is None else f"ret {e}"
+                if r != want: self.v("retcode", f"`{cmd}` answered `{r}`, expected `{want}`")
+                mt_runall(cmd)
+            elif mt and w[0] == "raise":
+                o = next(it)
+                if o == "raise lost": self.v("handler-not-run", f"signal {w[1]} was sent while libuv's handler was installed but the handler never ran")
+                else: raise_sig(int(w[1]), o, None)
+                mt_runall(cmd)
+            elif mt:
+                self.v("protocol", f"generator produced `{cmd}`")
+            elif w[0] == "init":
                 nl = int(w[1])
                 H = {i: dict(loop=int(l), sig=0, os=False, inc=0, closing=False, closed=False, caught=0,
                              pending_at_restart=False, own_cb_restart=False, got_cb=-1) for i, l in enumerate(w[2:])}
@@ -331,10 +412,10 @@ class Mon:
         return self.viol
 
 
-def monitor(prog, out):
+def monitor(prog, out, mt=False):
     m = Mon()
     try:
-        m.run(prog, out)
+        m.run(prog, out, mt)
     except StopIteration:
         m.v("log-short", "implementation log ended early")
     return m.viol
@@ -425,9 +506,13 @@ def run(ctx):
     exe = ctx.harness("c13_sim", ["harness/c13_sim.c"])
     if exe is None:
         return
+    mexe = ctx.harness("c13_mt", ["harness/c13_mt.c"])
     if ctx.replay:
         rp = json.loads(Path(ctx.replay).read_text())["replay"]
-        run_case(ctx, exe, rp["ops"])
+        if rp.get("mt"):
+            if mexe: run_mt_case(ctx, mexe, rp["ops"], {})
+        else:
+            run_case(ctx, exe, rp["ops"])
         return
     rng = ctx.rng
     stats = {}
@@ -448,10 +533,16 @@ def run(ctx):
     ctx.notes["exhaustive_scope"] = "7^5 programs over {start,oneshot (2 signums),stop,raise,run} on one handle, then raise/run/run" + \
                                     (" (1/24 sample in the quick tier)" if ctx.quick else "")
     if ok:
-        for i in range(ctx.scale(350, 15000)):
+        for i in range(ctx.scale(350, 5000)):
             c = gen_case(rng, big=(i % 5 == 0))
             if i == 0: ctx.sample({"program": c[:16]})
             if not run_case(ctx, exe, c, stats=stats): ok = False; break
+    if ok and mexe:
+        # loops on their own threads, handler on whichever thread the kernel picks: monitors only
+        for i in range(ctx.scale(15, 600)):
+            if not run_mt_case(ctx, mexe, gen_mt_case(rng), stats): ok = False; break
+        ctx.notes["multi_thread_cases"] = ctx.scale(15, 600)
+        ctx.notes["multi_thread_signal_callbacks"] = stats.get("_mtcb", 0)
     ctx.notes["monitor_signatures_seen"] = {k: v for k, v in stats.items() if not k.startswith("_")}
     ctx.notes["signal_callbacks"] = stats.get("_cb", 0)
     ctx.notes["multi_loop_cases"] = stats.get("_multi", 0)
